@@ -113,4 +113,7 @@ Definition src_dyn_state_set_itv (o : (dyn_obs S R (set_pred_itv R))) (t : Z) : 
   if (Z.eqb t (tstep (do_init o)))
   then Some ((do_init o))
   else None.
+(* EnvironmentObstacle.occupancy_at_time *)
+Definition src_env_occ (o : (env_obs R)) (t : Z) : (occ R) :=
+  {| o_time := (TStep t); o_region := (eo_shape o) |}.
 End Src.
